@@ -30,6 +30,10 @@ def plan(tier, seed):
     p = cfgp()
     base, nstates, ntrans = gram.grammar_cases(p["depth"])
     cases = list(base)
+    bi, si, ti = gram.grammar_cases(2 if tier != "thorough" else 3, terms=("a", "b", "c"), with_sharp=False)
+    cases += [dict(c, ints=True) for c in bi]  # integer terminals {0,1,2} (0 is falsy)
+    nstates += si
+    ntrans += ti
     if p["extra"]:
         b3, s3, t3 = gram.grammar_cases(3, heads=("S", "A", "B"), with_sharp=False)
         b4, s4, t4 = gram.grammar_cases(2, heads=("S", "A"), maxbody=3, with_sharp=False)
@@ -153,7 +157,7 @@ def checks(mk):
 def run_case(case):
     rules = case_rules(case)
     V = case_terms(case)
-    inp0 = {"rules": case["rules"]}
+    inp0 = {"rules": case["rules"]} if not case.get("ints") else {"rules": case["rules"], "tokens": "a,b,c -> 0,1,2"}
     fails = []
     evals = 0
     nx = 0
